@@ -6,7 +6,10 @@ A case is {"n": ready connections, "start": clock ns, "ops": [...]} with ops
                                         -2 plain error, else grpc status code; optional "codes":[..] gives the
                                         code per connection position (the driver reports the one it used)
   {"op":"adv","dt":ns}
-The driver reports, after every step, every counter of every subConn, the chosen connection, the number of
+Client-wiring cases ({"kind":"client","backends":2|3,"calls":300,"opts":[{"o":"dial","tag":t}|{"o":"nonblock"}|
+{"o":"timeout","ms":m}|{"o":"creds"}|{"o":"unary"}|{"o":"stream"}]}) go to the second driver (rpc/internal):
+NewClient with these ClientOptions against in-process backends; see drive().
+The p2c driver reports, after every step, every counter of every subConn, the chosen connection, the number of
 random values consumed and, for completions, td and the bits of w = math.Exp(float64(-td)/float64(decayTime)).
 """
 import math
@@ -66,6 +69,11 @@ TRUSTED = ["math.Exp: w is taken from the driver (same Go expression, in-package
            "grpc status code numbering (codes.DeadlineExceeded=4, Unimplemented=12, Internal=13, Unavailable=14, DataLoss=15)",
            "penalty = int64(math.MaxInt32) is not translatable by gogen (math.MaxInt32); the model's constant is "
            "checked by correspondence only (double-done cases reach inflight = -1)"]
+TRUSTED += ["client cases: grpc v1.50.1 internals read by reflection from the ClientConn NewClient returns "
+            "(dopts.defaultServiceConfigRawJSON, balancerWrapper.curBalancerName); dial options are opaque, so the "
+            "assembled list is labelled by identity (balancer option, user options) and '?' for the rest",
+            "client cases run on the wall clock with real loopback TCP servers and grpc's own rand: 300 calls, extended "
+            "to at most 6000 calls / 3 s while some backend is still unserved"]
 ASSUMPTIONS = ["each Pick and each done func is atomic in the executable model (the driver is single-threaded); "
                "the interleaved reading of the done func is covered by theorems c14_conc_* only",
                ">= 3 connections: 'chosen markedly less often' / 'picked about once per second' are probabilistic in "
